@@ -252,16 +252,20 @@ func gevFamily(c *inst, raw json.RawMessage, full bool, sum *core.Summary) {
 					opt, ok := k.query("Dgeev", minw, func(work []float64) {
 						impl.Dgeev(jobvl, jobvr, n, a0, lda, wr0, wi0, vl0, ldvl, vr0, ldvr, work, -1)
 					}, a0, wr0, wi0, vl0, vr0)
-					lworks := []int{minw}
-					if ok && opt != minw {
-						lworks = append(lworks, opt)
-					}
+					grid := lworkGrid(minw, opt, ok, lda, n)
 					for _, routine := range []string{"Dgeev", "lapack64.Geev"} {
 						if routine == "lapack64.Geev" && (pad != 0 || n == 0) {
 							continue
 						}
-						for _, lwork := range lworks {
-							k.where = desc(routine, "jobvl", wantvl, "jobvr", wantvr, "n", n, "lda", lda, "ldvl", ldvl, "ldvr", ldvr, "lwork", lwork, "sce", c.Sce)
+						for _, lw := range grid {
+							lwork := lw.lwork
+							if routine == "lapack64.Geev" && lw.name != "min" && lw.name != "opt" {
+								continue // the wrapper only forwards lwork
+							}
+							if routine == "Dgeev" {
+								gridNote("lwork_grid", desc("Dgeev", lw.name, "lda+"+desc(pad)))
+							}
+							k.where = desc(routine, "jobvl", wantvl, "jobvr", wantvr, "n", n, "lda", lda, "ldvl", ldvl, "ldvr", ldvr, "lwork", lwork, "("+lw.name+")", "sce", c.Sce)
 							a, wr, wi, vl, vr := mk()
 							work := newWork(lwork)
 							first := -1
